@@ -196,6 +196,17 @@ class ExprMixin:
         self.frames[-1].yields.append(v)
         return NONE
 
+    def ev_YieldFrom(self, e):
+        """`yield from X`: what X hands out is handed out here, in order (a generator call: its yields; else one element)"""
+        v = self.ev(e.value)
+        ety = [t[1] for t in v.ty if t[0] == "elemty"]
+        if v.t and v.t[0] in ("gen", "tuple", "list") and not any(x and x[0] == "star" for x in v.t[1]):
+            for t in v.t[1]:
+                self.frames[-1].yields.append(V(t, ety, v.dep))
+        else:
+            self.frames[-1].yields.append(self.iter_elem(self.iterate_value(v, e.value), 0, e.value))
+        return NONE
+
     def ev_NamedExpr(self, e):
         v = self.ev(e.value)
         self.frames[-1].env[e.target.id] = v
